@@ -86,4 +86,381 @@ theorem c14_generic_not_mom (g : String) (a : Acc) (h : accOfName g = some a) :
   rw [c14_accOfName_eq g a h]
   cases a <;> decide
 
+/-! ### 2. reading through a momentum spelling -/
+
+section
+variable {S B : Type}
+
+/-- a momentum spelling on a momentum vector: the accessor `a` (with any argument it is a `TypeError`, on a vector of
+too small dimension an `AttributeError`) -/
+theorem c14_call_mom (ev : Ev S B) (K : Consts S) (A : Arith S) (n : String) (a : Acc) (v : Vec S)
+    (args : List (Arg S)) (hn : momAccOfName n = some a) (hm : v.ty.mom = true) :
+    call ev K A n v args =
+      if v.ty.dim < a.need then .error .attributeError else if !args.isEmpty then .error .typeError
+      else getAcc ev a v := by
+  unfold call
+  simp only [hn, hm]
+  simp
+
+/-- a momentum spelling does not exist on a geometric (non-momentum) vector -/
+theorem c14_call_mom_on_geometric (ev : Ev S B) (K : Consts S) (A : Arith S) (n : String) (a : Acc) (v : Vec S)
+    (args : List (Arg S)) (hn : momAccOfName n = some a) (hm : v.ty.mom = false) :
+    call ev K A n v args = .error .attributeError := by
+  unfold call
+  simp only [hn, hm]
+  simp
+
+/-- a generic accessor name on any vector -/
+theorem c14_call_generic (ev : Ev S B) (K : Consts S) (A : Arith S) (g : String) (a : Acc) (v : Vec S)
+    (args : List (Arg S)) (hg : accOfName g = some a) :
+    call ev K A g v args =
+      if args.isEmpty then getAcc ev a v
+      else if v.ty.dim < a.need || (a.momOnly && !v.ty.mom) then .error .attributeError else .error .typeError := by
+  obtain ⟨h1, h2⟩ := c14_generic_not_mom g a hg
+  unfold call
+  simp only [h1, h2, hg]
+
+/-- **synonymy of the accessors**: on a momentum vector a momentum spelling and a generic name of the same accessor are
+the same call — same value, same error, for any argument list and any dimension -/
+theorem c14_call_synonym (ev : Ev S B) (K : Consts S) (A : Arith S) (n g : String) (a : Acc) (v : Vec S)
+    (args : List (Arg S)) (hn : momAccOfName n = some a) (hg : accOfName g = some a) (hm : v.ty.mom = true) :
+    call ev K A n v args = call ev K A g v args := by
+  rw [c14_call_mom ev K A n a v args hn hm, c14_call_generic ev K A g a v args hg]
+  by_cases hd : v.ty.dim < a.need
+  · cases args <;> simp [hd, getAcc]
+  · cases args <;> simp [hd, hm]
+
+/-- … and, when the vector has the dimension, both are the accessor itself -/
+theorem c14_call_synonym_getAcc (ev : Ev S B) (K : Consts S) (A : Arith S) (n g : String) (a : Acc) (v : Vec S)
+    (hn : momAccOfName n = some a) (hg : accOfName g = some a) (hm : v.ty.mom = true) (hd : a.need ≤ v.ty.dim) :
+    call ev K A n v [] = getAcc ev a v ∧ call ev K A g v [] = getAcc ev a v := by
+  rw [c14_call_mom ev K A n a v [] hn hm, c14_call_generic ev K A g a v [] hg]
+  have : ¬ v.ty.dim < a.need := by omega
+  simp [this]
+
+/-- every pair of the documented table, on every momentum vector -/
+theorem c14_call_synonyms_table (ev : Ev S B) (K : Consts S) (A : Arith S) (v : Vec S) (args : List (Arg S))
+    (hm : v.ty.mom = true) : ∀ p ∈ synonyms, call ev K A p.1 v args = call ev K A p.2 v args := by
+  intro p hp
+  obtain ⟨h1, h2⟩ := c14_acc_synonyms_table p hp
+  obtain ⟨a, ha⟩ := Option.isSome_iff_exists.mp h1
+  exact c14_call_synonym ev K A p.1 p.2 a v args (h2.trans ha) ha hm
+
+/-- e.g. `v.px = v.x`, `v.pt = v.rho`, `v.E = v.t`, `v.mass = v.tau` -/
+theorem c14_call_examples (ev : Ev S B) (K : Consts S) (A : Arith S) (v : Vec S) (hm : v.ty.mom = true) :
+    call ev K A "px" v [] = call ev K A "x" v [] ∧ call ev K A "py" v [] = call ev K A "y" v [] ∧
+    call ev K A "pt" v [] = call ev K A "rho" v [] ∧ call ev K A "pz" v [] = call ev K A "z" v [] ∧
+    call ev K A "E" v [] = call ev K A "t" v [] ∧ call ev K A "energy" v [] = call ev K A "t" v [] ∧
+    call ev K A "M" v [] = call ev K A "tau" v [] ∧ call ev K A "mass" v [] = call ev K A "tau" v [] ∧
+    call ev K A "transverse_energy" v [] = call ev K A "Et" v [] := by
+  have h := c14_call_synonyms_table ev K A v [] hm
+  refine ⟨h ("px", "x") (by decide), h ("py", "y") (by decide), h ("pt", "rho") (by decide), h ("pz", "z") (by decide),
+    h ("E", "t") (by decide), h ("energy", "t") (by decide), h ("M", "tau") (by decide), h ("mass", "tau") (by decide),
+    h ("transverse_energy", "Et") (by decide)⟩
+
+/-! ### 3. assigning through a momentum spelling -/
+
+/-- the setter synonym table -/
+theorem c14_setter_synonyms :
+    setterOfName true "px" = setterOfName true "x" ∧ setterOfName true "py" = setterOfName true "y" ∧
+    setterOfName true "pt" = setterOfName true "rho" ∧ setterOfName true "pz" = setterOfName true "z" ∧
+    setterOfName true "E" = setterOfName true "t" ∧ setterOfName true "e" = setterOfName true "t" ∧
+    setterOfName true "energy" = setterOfName true "t" ∧ setterOfName true "M" = setterOfName true "tau" ∧
+    setterOfName true "m" = setterOfName true "tau" ∧ setterOfName true "mass" = setterOfName true "tau" := by
+  decide
+
+theorem c14_setter_synonyms_table :
+    ∀ p ∈ setterSynonyms, (setterOfName true p.2).isSome ∧ setterOfName true p.1 = setterOfName true p.2 ∧
+      setterOfName false p.1 = none := by decide
+
+/-- the setter synonyms are accessor synonyms (one assigns to what one reads) -/
+theorem c14_setter_synonyms_sub : ∀ p ∈ setterSynonyms, p ∈ synonyms := by decide
+
+/-- `isReadOnlyProp` only looks at the dimension and the flavor of the type -/
+private def roByDim (d : Nat) (mom : Bool) (name : String) : Bool :=
+  let hasAcc (a : Acc) : Bool := d ≥ a.need && (!a.momOnly || mom)
+  (match accOfName name with | some a => hasAcc a | none => false)
+  || (mom && (match momAccOfName name with | some a => hasAcc a | none => false))
+  || name == "neg2D" || (name == "neg3D" && d ≥ 3) || (name == "neg4D" && d ≥ 4)
+
+private theorem isReadOnlyProp_eq (ty : VT) (name : String) : isReadOnlyProp ty name = roByDim ty.dim ty.mom name := rfl
+
+private theorem roByDim_syn : ∀ d ∈ [2, 3, 4], ∀ p ∈ setterSynonyms, roByDim d true p.1 = roByDim d true p.2 := by
+  decide
+
+private theorem dim_mem (ty : VT) : ty.dim ∈ [2, 3, 4] := by
+  unfold VT.dim; split <;> split <;> simp
+
+/-- assignment through a momentum spelling is the same step as assignment through the generic name, on every momentum
+type (whatever its dimension) -/
+theorem c14_stepOfSet_synonym (ty : VT) (hm : ty.mom = true) (a : S) :
+    ∀ p ∈ setterSynonyms, stepOfSet ty p.1 a = stepOfSet ty p.2 a := by
+  intro p hp
+  obtain ⟨h1, h2, h3⟩ := c14_setter_synonyms_table p hp
+  unfold stepOfSet
+  rw [hm, h2, isReadOnlyProp_eq, isReadOnlyProp_eq, hm, roByDim_syn _ (dim_mem ty) p hp]
+
+theorem c14_stepOfSet_examples (ty : VT) (hm : ty.mom = true) (a : S) :
+    stepOfSet ty "px" a = stepOfSet ty "x" a ∧ stepOfSet ty "py" a = stepOfSet ty "y" a ∧
+    stepOfSet ty "pt" a = stepOfSet ty "rho" a ∧ stepOfSet ty "pz" a = stepOfSet ty "z" a ∧
+    stepOfSet ty "E" a = stepOfSet ty "t" a ∧ stepOfSet ty "e" a = stepOfSet ty "t" a ∧
+    stepOfSet ty "energy" a = stepOfSet ty "t" a ∧ stepOfSet ty "M" a = stepOfSet ty "tau" a ∧
+    stepOfSet ty "m" a = stepOfSet ty "tau" a ∧ stepOfSet ty "mass" a = stepOfSet ty "tau" a := by
+  have h := c14_stepOfSet_synonym ty hm a
+  exact ⟨h ("px", "x") (by decide), h ("py", "y") (by decide), h ("pt", "rho") (by decide), h ("pz", "z") (by decide),
+    h ("E", "t") (by decide), h ("e", "t") (by decide), h ("energy", "t") (by decide), h ("M", "tau") (by decide),
+    h ("m", "tau") (by decide), h ("mass", "tau") (by decide)⟩
+
+end
+
+/-! ### 4. the flavor never changes a number -/
+
+section
+variable {S B : Type}
+
+/-- re-label the flavor of a vector -/
+def setMom (b : Bool) (v : Vec S) : Vec S := { v with ty := { v.ty with mom := b } }
+
+/-- forget the flavor of a result (scalars and truth values are untouched) -/
+def Res.unmom : Res S B → Res S B
+  | .vec v => .vec (setMom false v)
+  | r => r
+
+@[simp] theorem c14_setMom_c (b : Bool) (v : Vec S) : (setMom b v).c = v.c := rfl
+@[simp] theorem c14_setMom_be (b : Bool) (v : Vec S) : (setMom b v).ty.be = v.ty.be := rfl
+@[simp] theorem c14_setMom_az (b : Bool) (v : Vec S) : (setMom b v).ty.az = v.ty.az := rfl
+@[simp] theorem c14_setMom_lon (b : Bool) (v : Vec S) : (setMom b v).ty.lon = v.ty.lon := rfl
+@[simp] theorem c14_setMom_tmp (b : Bool) (v : Vec S) : (setMom b v).ty.tmp = v.ty.tmp := rfl
+@[simp] theorem c14_setMom_mom (b : Bool) (v : Vec S) : (setMom b v).ty.mom = b := rfl
+@[simp] theorem c14_setMom_dim (b : Bool) (v : Vec S) : (setMom b v).ty.dim = v.ty.dim := rfl
+@[simp] theorem c14_setMom_setMom (b b' : Bool) (v : Vec S) : setMom b (setMom b' v) = setMom b v := rfl
+theorem c14_setMom_self (v : Vec S) : setMom v.ty.mom v = v := rfl
+
+/-- two vectors agree up to flavor iff they agree after forgetting it -/
+theorem c14_setMom_false_eq_iff (v w : Vec S) :
+    setMom false v = setMom false w ↔
+      v.c = w.c ∧ v.ty.be = w.ty.be ∧ v.ty.az = w.ty.az ∧ v.ty.lon = w.ty.lon ∧ v.ty.tmp = w.ty.tmp := by
+  obtain ⟨⟨be, mom, az, lon, tmp⟩, c⟩ := v
+  obtain ⟨⟨be', mom', az', lon', tmp'⟩, c'⟩ := w
+  simp [setMom]
+  constructor <;> (intro h; simp [h])
+
+private theorem operandKey_setMom (b : Bool) (v : Vec S) (n : Nat) : operandKey (setMom b v) n = operandKey v n := rfl
+
+private theorem mapM_key_setMom (f : Vec S → Vec S) (hf : ∀ v n, operandKey (f v) n = operandKey v n)
+    (ops : List (Vec S)) (slots : List Nat) :
+    ((ops.map f).zip slots).mapM (fun (p : Vec S × Nat) => operandKey p.1 p.2) =
+      (ops.zip slots).mapM (fun (p : Vec S × Nat) => operandKey p.1 p.2) := by
+  induction ops generalizing slots with
+  | nil => rfl
+  | cons v ops ih =>
+    cases slots with
+    | nil => rfl
+    | cons n slots => simp [List.mapM_cons, hf, ih]
+
+private theorem handlerOf_fold_setMom (b : Bool) (vs : List (Vec S)) (h : Option (Vec S)) :
+    (vs.map (setMom b)).foldl (fun h v => match h with
+      | none => some v
+      | some h => if v.ty.be.prio > h.ty.be.prio then some v else some h) (h.map (setMom b)) =
+    (vs.foldl (fun h v => match h with
+      | none => some v
+      | some h => if v.ty.be.prio > h.ty.be.prio then some v else some h) h).map (setMom b) := by
+  induction vs generalizing h with
+  | nil => rfl
+  | cons v vs ih =>
+    simp only [List.map_cons, List.foldl_cons]
+    rw [← ih]
+    congr 1
+    cases h with
+    | none => rfl
+    | some h =>
+      by_cases hp : v.ty.be.prio > h.ty.be.prio <;> simp [hp]
+
+/-- the handler is chosen by backend priority only -/
+theorem c14_handlerOf_setMom (b : Bool) (vs : List (Vec S)) :
+    handlerOf (vs.map (setMom b)) = (handlerOf vs).map (setMom b) :=
+  handlerOf_fold_setMom b vs none
+
+private theorem wrapVec_self_setMom (b : Bool) (h : Vec S) (be : Backend) (mom : Bool) (raw : List S) (parts : List RP) :
+    wrapVec (setMom b h) be mom raw parts = wrapVec h be mom raw parts := rfl
+
+private theorem wrapVec_unmom (h : Vec S) (be : Backend) (mom mom' : Bool) (raw : List S) (parts : List RP) :
+    (wrapVec h be mom raw parts).map (setMom false) = (wrapVec h be mom' raw parts).map (setMom false) := by
+  unfold wrapVec
+  split <;> (try split) <;> rfl
+
+private theorem map_vec_unmom (e : Except Err (Vec S)) :
+    (e.map (Res.vec (B := B))).map Res.unmom = (e.map (setMom false)).map Res.vec := by
+  cases e <;> rfl
+
+/-- `_wrap_result`: the flavor of the handler and the flavor given to the result influence only the `mom` flag of a
+vector result -/
+theorem c14_wrapResult_flavor (b : Bool) (h : Vec S) (be : Backend) (mom mom' : Bool) (out : Out S B) (ret : Ret) :
+    (wrapResult (setMom b h) be mom out ret).map Res.unmom = (wrapResult h be mom' out ret).map Res.unmom := by
+  unfold wrapResult
+  split
+  · rfl
+  · rfl
+  · rename_i parts raw
+    rw [wrapVec_self_setMom, map_vec_unmom, map_vec_unmom, wrapVec_unmom h be mom mom']
+  · rfl
+
+/-- `dispatch` after forgetting the flavor of every operand: same outcome up to the flavor of a vector result -/
+theorem c14_dispatch_forget (ev : Ev S B) (m : ModuleId) (sc : List S) (ord : Option Ord) (ops counted : List (Vec S)) :
+    (dispatch ev m sc ord (ops.map (setMom false)) (counted.map (setMom false))).map Res.unmom =
+      (dispatch ev m sc ord ops counted).map Res.unmom := by
+  unfold dispatch
+  simp only [List.length_map]
+  split
+  · rfl
+  · have hk := mapM_key_setMom (setMom false) (operandKey_setMom false) ops (operandSlots m.info.shape)
+    rw [hk]
+    cases List.mapM (fun p : Vec S × Nat => operandKey p.fst p.snd) (ops.zip (operandSlots m.info.shape)) with
+    | none => rfl
+    | some parts =>
+      dsimp only
+      cases ev m ((List.map (fun x => x.fst) parts).flatten ++ match ord with | some o => [KA.ord o] | none => [])
+          (sc ++ (List.map (fun x => x.snd) parts).flatten) with
+      | none => rfl
+      | some r =>
+        obtain ⟨out, ret⟩ := r
+        dsimp only
+        rw [c14_handlerOf_setMom]
+        cases handlerOf counted with
+        | none => rfl
+        | some h => exact c14_wrapResult_flavor false h h.ty.be _ _ out ret
+
+/-- **the flavor never changes a number**: two `dispatch` calls whose operands differ only in their `mom` flags have the
+same outcome — the same error, the same scalar, the same truth value, or vectors that differ at most in `ty.mom` -/
+theorem c14_dispatch_flavor (ev : Ev S B) (m : ModuleId) (sc : List S) (ord : Option Ord)
+    (ops ops' counted counted' : List (Vec S)) (hops : ops.map (setMom false) = ops'.map (setMom false))
+    (hc : counted.map (setMom false) = counted'.map (setMom false)) :
+    (dispatch ev m sc ord ops counted).map Res.unmom = (dispatch ev m sc ord ops' counted').map Res.unmom := by
+  rw [← c14_dispatch_forget ev m sc ord ops counted, ← c14_dispatch_forget ev m sc ord ops' counted', hops, hc]
+
+/-- re-labelling the operands one by one (`flags`) satisfies the hypothesis of `c14_dispatch_flavor` -/
+theorem c14_zipWith_setMom (flags : List Bool) (vs : List (Vec S)) (h : vs.length ≤ flags.length) :
+    (List.zipWith setMom flags vs).map (setMom false) = vs.map (setMom false) := by
+  induction vs generalizing flags with
+  | nil => cases flags <;> rfl
+  | cons v vs ih =>
+    cases flags with
+    | nil => simp at h
+    | cons b flags =>
+      simp only [List.zipWith_cons_cons, List.map_cons, c14_setMom_setMom]
+      rw [ih flags (by simpa using h)]
+
+/-- the four outcomes spelled out -/
+theorem c14_dispatch_flavor_scalar (ev : Ev S B) (m : ModuleId) (sc : List S) (ord : Option Ord)
+    (ops ops' counted counted' : List (Vec S)) (hops : ops.map (setMom false) = ops'.map (setMom false))
+    (hc : counted.map (setMom false) = counted'.map (setMom false)) (s : S)
+    (h : dispatch ev m sc ord ops counted = .ok (.scalar s)) : dispatch ev m sc ord ops' counted' = .ok (.scalar s) := by
+  have := c14_dispatch_flavor ev m sc ord ops ops' counted counted' hops hc
+  rw [h] at this
+  rcases h' : dispatch ev m sc ord ops' counted' with e | r
+  · rw [h'] at this; cases this
+  · rw [h'] at this
+    cases r <;> simp [Except.map, Res.unmom] at this
+    rw [this]
+
+theorem c14_dispatch_flavor_truth (ev : Ev S B) (m : ModuleId) (sc : List S) (ord : Option Ord)
+    (ops ops' counted counted' : List (Vec S)) (hops : ops.map (setMom false) = ops'.map (setMom false))
+    (hc : counted.map (setMom false) = counted'.map (setMom false)) (b : B)
+    (h : dispatch ev m sc ord ops counted = .ok (.truth b)) : dispatch ev m sc ord ops' counted' = .ok (.truth b) := by
+  have := c14_dispatch_flavor ev m sc ord ops ops' counted counted' hops hc
+  rw [h] at this
+  rcases h' : dispatch ev m sc ord ops' counted' with e | r
+  · rw [h'] at this; cases this
+  · rw [h'] at this
+    cases r <;> simp [Except.map, Res.unmom] at this
+    rw [this]
+
+theorem c14_dispatch_flavor_error (ev : Ev S B) (m : ModuleId) (sc : List S) (ord : Option Ord)
+    (ops ops' counted counted' : List (Vec S)) (hops : ops.map (setMom false) = ops'.map (setMom false))
+    (hc : counted.map (setMom false) = counted'.map (setMom false)) (e : Err)
+    (h : dispatch ev m sc ord ops counted = .error e) : dispatch ev m sc ord ops' counted' = .error e := by
+  have := c14_dispatch_flavor ev m sc ord ops ops' counted counted' hops hc
+  rw [h] at this
+  rcases h' : dispatch ev m sc ord ops' counted' with e' | r
+  · rw [h'] at this; simp [Except.map] at this; rw [this]
+  · rw [h'] at this; cases this
+
+/-- a vector result has the same coordinate list, backend and coordinate systems; only `ty.mom` may differ -/
+theorem c14_dispatch_flavor_vec (ev : Ev S B) (m : ModuleId) (sc : List S) (ord : Option Ord)
+    (ops ops' counted counted' : List (Vec S)) (hops : ops.map (setMom false) = ops'.map (setMom false))
+    (hc : counted.map (setMom false) = counted'.map (setMom false)) (r : Vec S)
+    (h : dispatch ev m sc ord ops counted = .ok (.vec r)) :
+    ∃ r', dispatch ev m sc ord ops' counted' = .ok (.vec r') ∧ r'.c = r.c ∧ r'.ty.be = r.ty.be ∧ r'.ty.az = r.ty.az ∧
+      r'.ty.lon = r.ty.lon ∧ r'.ty.tmp = r.ty.tmp := by
+  have := c14_dispatch_flavor ev m sc ord ops ops' counted counted' hops hc
+  rw [h] at this
+  rcases h' : dispatch ev m sc ord ops' counted' with e | r'
+  · rw [h'] at this; cases this
+  · rw [h'] at this
+    cases r' <;> simp [Except.map, Res.unmom] at this
+    rename_i r'
+    exact ⟨r', rfl, (c14_setMom_false_eq_iff r' r).mp this.symm⟩
+
+/-- the flavor of a vector result: momentum iff some counted operand is momentum -/
+theorem c14_dispatch_result_mom (ev : Ev S B) (m : ModuleId) (sc : List S) (ord : Option Ord)
+    (ops counted : List (Vec S)) (r : Vec S) (h : dispatch ev m sc ord ops counted = .ok (.vec r)) :
+    r.ty.mom = counted.any (·.ty.mom) := by
+  unfold dispatch at h
+  dsimp only at h
+  split at h
+  · cases h
+  split at h
+  · cases h
+  split at h
+  · cases h
+  split at h
+  · cases h
+  rename_i hh _ _
+  unfold wrapResult at h
+  split at h
+  · cases h
+  · cases h
+  · unfold wrapVec at h
+    split at h <;> (try split at h) <;> cases h <;> rfl
+  · cases h
+
+/-- e.g. a binary operation on `(v, w)` and on `(setMom b₁ v, setMom b₂ w)` -/
+example (ev : Ev S B) (m : ModuleId) (v w : Vec S) (b₁ b₂ : Bool) :
+    (dispatch ev m [] none [setMom b₁ v, setMom b₂ w] [setMom b₁ v, setMom b₂ w]).map Res.unmom =
+      (dispatch ev m [] none [v, w] [v, w]).map Res.unmom :=
+  c14_dispatch_flavor ev m [] none _ _ _ _ rfl rfl
+
+/-- consequently every accessor that exists on both flavors reads the same on a vector and on its re-labelled copy -/
+theorem c14_getAcc_flavor (ev : Ev S B) (a : Acc) (ha : a.momOnly = false) (b : Bool) (v : Vec S) :
+    (getAcc ev a (setMom b v)).map Res.unmom = (getAcc ev a v).map Res.unmom := by
+  unfold getAcc
+  simp only [ha, c14_setMom_dim, Bool.false_and, Bool.or_false]
+  by_cases hd : v.ty.dim < a.need
+  · simp [hd]
+  · simp only [hd, decide_false, Bool.false_eq_true, if_false]
+    exact c14_dispatch_flavor ev a.mod [] none [setMom b v] [v] [setMom b v] [v] rfl rfl
+
+/-- … and `scale` / `neg` / `*` / `/` compute the same coordinates -/
+theorem c14_scaleN_flavor (ev : Ev S B) (n : Nat) (f : S) (b : Bool) (v : Vec S) :
+    (scaleN ev n f (setMom b v)).map Res.unmom = (scaleN ev n f v).map Res.unmom := by
+  unfold scaleN
+  simp only [c14_setMom_dim]
+  by_cases hd : v.ty.dim < n
+  · simp [hd]
+  · simp only [hd, if_false]
+    exact c14_dispatch_flavor ev (scaleMod n) [f] none [setMom b v] [v] [setMom b v] [v] rfl rfl
+
+/-! the hypotheses are satisfiable -/
+
+example : momAccOfName "pt" = some .rho ∧ accOfName "rho" = some .rho := ⟨rfl, rfl⟩
+example (ev : Ev S B) (K : Consts S) (A : Arith S) (a b c d : S) :
+    call ev K A "mass" ⟨⟨.obj, true, .xy, some .z, some .t⟩, [a, b, c, d]⟩ [] =
+      call ev K A "tau" ⟨⟨.obj, true, .xy, some .z, some .t⟩, [a, b, c, d]⟩ [] :=
+  c14_call_synonym ev K A "mass" "tau" .tau _ [] rfl rfl rfl
+example (a : S) : stepOfSet ⟨.obj, true, .rhophi, some .eta, none⟩ "pt" a = Step.set .rho a := rfl
+example (a b : S) : setMom false (⟨⟨.obj, true, .xy, none, none⟩, [a, b]⟩ : Vec S) = ⟨⟨.obj, false, .xy, none, none⟩, [a, b]⟩ :=
+  rfl
+
+end
+
 end VG
